@@ -240,9 +240,10 @@ func genSub(r *Rng, i int) subCase {
 }
 
 func streamA(c *Ctx) {
-	n := c.N(480, 6000)
+	n := c.N(320, 6000)
 	var batch []string
 	var descs []interface{}
+	nBatch := 0
 	flush := func() {
 		if len(batch) == 0 {
 			return
@@ -250,9 +251,12 @@ func streamA(c *Ctx) {
 		id := c.Cases.Add("run_subs "+CoqList(batch), "RS true")
 		c.Stats.Count("coq_cases_subsidy")
 		c.Stats.Case(fmt.Sprint("sub", id, batch[0]), true)
-		if id%20 == 0 {
-			c.Stats.CaseIndex[fmt.Sprint(id)] = map[string]interface{}{"stream": "subsidy", "seed": c.Seed, "entries": descs}
+		d := map[string]interface{}{"stream": "subsidy", "run_seed": c.Seed, "tier": c.Tier, "batch": nBatch, "count": len(batch)}
+		if nBatch%20 == 0 {
+			d["entries"] = descs
 		}
+		c.Stats.CaseIndex[fmt.Sprint(id)] = d
+		nBatch++
 		batch, descs = nil, nil
 	}
 	failed := 0
@@ -702,6 +706,7 @@ func streamB(c *Ctx) {
 	n := c.N(350, 3500)
 	var batch, obs []string
 	var descs []interface{}
+	nBatch := 0
 	plab := newLabeler()
 	flush := func() {
 		if len(batch) == 0 {
@@ -710,9 +715,12 @@ func streamB(c *Ctx) {
 		id := c.Cases.Add("run_checks "+CoqList(batch), "RK "+CoqList(obs))
 		c.Stats.Count("coq_cases_checks")
 		c.Stats.Case(fmt.Sprint("chk", id, batch[0]), true)
-		if id%10 == 0 {
-			c.Stats.CaseIndex[fmt.Sprint(id)] = map[string]interface{}{"stream": "checks", "seed": c.Seed, "entries": descs}
+		d := map[string]interface{}{"stream": "checks", "run_seed": c.Seed, "tier": c.Tier, "batch": nBatch, "count": len(batch)}
+		if nBatch%10 == 0 {
+			d["entries"] = descs
 		}
+		c.Stats.CaseIndex[fmt.Sprint(id)] = d
+		nBatch++
 		batch, obs, descs = nil, nil, nil
 		plab = newLabeler()
 	}
@@ -791,6 +799,8 @@ type line struct {
 	Counts     map[string]int         `json:"counts,omitempty"`
 	Nontrivial bool                   `json:"nontrivial,omitempty"`
 	Desc       map[string]interface{} `json:"desc,omitempty"`
+	ProbeM     []string               `json:"probe_m,omitempty"` // stream D: model tuples (E, h, script, iter)
+	ProbeO     []string               `json:"probe_o,omitempty"` // stream D: observed output lists
 }
 
 var (
@@ -832,17 +842,20 @@ type poolEnt struct {
 }
 
 type caseBuilder struct {
-	w       *cl.World
-	E       uint64
-	r       *Rng
-	plab    *labeler
-	olab    *labeler
-	counts  map[string]int
-	fails   []string
-	subtab  []string
-	subSeen map[string]bool
-	steps   []*stepInfo
-	herr    string
+	w        *cl.World
+	E        uint64
+	r        *Rng
+	plab     *labeler
+	olab     *labeler
+	counts   map[string]int
+	fails    []string
+	subtab   []string
+	subSeen  map[string]bool
+	steps    []*stepInfo
+	herr     string
+	worldOff bool // the World's copy of the subsidy formula disagrees with the implementation: no cross-check
+	probeM   []string
+	probeO   []string
 }
 
 func (cb *caseBuilder) count(k string) { cb.counts[k]++ }
@@ -1077,15 +1090,16 @@ func (cb *caseBuilder) mutantOuts(kind string, base []mOut, due, older, lastPaid
 		o[i].amt = a
 		o = insertOut(o, mOut{prog: p, amt: b}, r.Intn(len(o)+1))
 		o = insertOut(o, mOut{prog: p, amt: c3}, r.Intn(len(o)+1))
-	case "overflow2":
+	case "overflow4": // amounts of 2^63 and more cannot be serialised: four outputs below 2^63 summing to 2^64 + amount
 		i := nonzero()
 		if i < 0 {
 			return nil, false
 		}
 		x := o[i]
-		o[i].amt = 1 << 63
-		x.amt += 1 << 63
-		o = insertOut(o, x, r.Intn(len(o)+1))
+		o[i].amt = 1 << 62
+		o = insertOut(o, mOut{prog: x.prog, amt: 1 << 62}, r.Intn(len(o)+1))
+		o = insertOut(o, mOut{prog: x.prog, amt: 1 << 62}, r.Intn(len(o)+1))
+		o = insertOut(o, mOut{prog: x.prog, amt: 1<<62 + x.amt}, r.Intn(len(o)+1))
 	case "asset":
 		i := pick()
 		o[i].asset = 1
@@ -1123,7 +1137,7 @@ func (cb *caseBuilder) mutantOuts(kind string, base []mOut, due, older, lastPaid
 }
 
 var mutantsDue = []string{"plus1", "minus1", "extra-known-1", "extra-known-big", "extra-new-0", "extra-new-1", "extra-new-big", "missing",
-	"wrong-prog", "swap", "no-payout", "overflow3", "overflow2", "asset", "vote-type", "older-table", "self-pay", "no-outputs"}
+	"wrong-prog", "swap", "no-payout", "overflow3", "overflow4", "asset", "vote-type", "older-table", "self-pay", "no-outputs"}
 var mutantsOff = []string{"amount1", "prev-table-again", "two-zero", "no-outputs", "asset-zero", "vote-zero", "subsidy-now", "amount1"}
 
 func matured(e *poolEnt, h uint64, votePending uint64) bool {
@@ -1258,6 +1272,9 @@ func (cb *caseBuilder) variant(base []mOut, due map[string]uint64) (string, []mO
 				idx = append(idx, i)
 			}
 		}
+		if len(idx) == 0 {
+			return "reordered", tab
+		}
 		i := idx[r.Intn(len(idx))]
 		a := 1 + r.Next()%(o[i].amt-1)
 		o[i].amt -= a
@@ -1288,7 +1305,7 @@ func (cb *caseBuilder) build() {
 		var older map[string]uint64
 		if dueNow && h > 1 {
 			due = finished[(h-1)/E]
-			if !equalU(due, tip.EpochRewards) {
+			if !cb.worldOff && !equalU(due, tip.EpochRewards) {
 				cb.herr = fmt.Sprintf("height %d: own table %v differs from the World's %v", h, due, tip.EpochRewards)
 				return
 			}
@@ -1317,6 +1334,9 @@ func (cb *caseBuilder) build() {
 			var outs []mOut
 			variant, outs = cb.variant(base, due)
 			blk, bi = cb.buildBlock(tip, txs, outs)
+		} else if dueNow && h > 1 {
+			// always from the harness's own table (the World keeps its own copy of the subsidy formula)
+			blk, bi = cb.buildBlock(tip, txs, base)
 		} else {
 			bi = w.NewBlock(tip, txs, cl.BlockOpt{RewardProgram: prog})
 			blk = bi.Block
@@ -1362,10 +1382,25 @@ func (cb *caseBuilder) build() {
 		if dueNow {
 			cur = map[string]uint64{}
 		}
-		cur[hex.EncodeToString(blk.Transactions[0].Outputs[0].ControlProgram)] += fee + sub
-		if bi == nil || !equalU(cur, bi.EpochRewards) {
-			cb.herr = fmt.Sprintf("height %d: own growing table %v differs from the World's", h, cur)
+		p0 := hex.EncodeToString(blk.Transactions[0].Outputs[0].ControlProgram)
+		cur[p0] += fee + sub
+		if bi == nil {
+			cb.herr = fmt.Sprintf("height %d: honest block without bookkeeping", h)
 			return
+		}
+		if !cb.worldOff && !equalU(cur, bi.EpochRewards) {
+			// the World's own copy of the subsidy formula against the implementation's value
+			worldGain := bi.EpochRewards[p0]
+			if !dueNow {
+				worldGain -= tip.EpochRewards[p0]
+			}
+			if worldGain-fee != sub {
+				cb.worldOff = true
+				cb.count("world_subsidy_differs_from_implementation")
+			} else {
+				cb.herr = fmt.Sprintf("height %d: own growing table %v differs from the World's %v", h, cur, bi.EpochRewards)
+				return
+			}
 		}
 		st := &stepInfo{adv: true, honest: true, kind: "honest-" + variant, height: h, block: blk, hash: blk.Hash(), due: due,
 			expr: "(true, " + cb.blockExpr(blk) + ")", parent: tip.Hash}
@@ -1613,7 +1648,7 @@ func runChainCase(w *cl.World, E uint64, cs caseSpec, base string, emit func(*li
 		fail("class=supply-exceeded: coinbase payouts on the main chain %s exceed the expected tables of the paid epochs %s", P, paidExpected)
 	}
 	cb.count(fmt.Sprintf("E_%d", E))
-	emit(&line{T: "result", ID: cs.ID, NSteps: nsteps, Total: U.String(), Fails: fails, Counts: cb.counts, Nontrivial: nontrivial,
+	emit(&line{T: "result", ID: cs.ID, NSteps: nsteps, Total: U.String(), Fails: fails, Counts: cb.counts, Nontrivial: nontrivial, ProbeM: cb.probeM, ProbeO: cb.probeO,
 		Desc: map[string]interface{}{"stream": "chain", "seed": cs.Seed, "E": E, "steps": len(cb.steps), "kinds": plan.Kinds, "best_height": bestH.Height, "paid": P.String(), "unspent": U.String()}})
 	return nil
 }
@@ -1630,6 +1665,7 @@ func (cb *caseBuilder) probeTemplate(n *cl.Node, st *stepInfo, fails *[]string) 
 		return
 	}
 	cb.count("proposer_probe")
+	cb.recordProbe(tmpl, st)
 	g := groupCoinbase(tmpl)
 	if !sameGroups(g, st.due) {
 		*fails = append(*fails, fmt.Sprintf("class=proposer-disagrees: the template for height %d pays %s, the finished epoch's table is %s", st.height, showGroups(g), showTable(st.due)))
@@ -1642,6 +1678,34 @@ func (cb *caseBuilder) probeTemplate(n *cl.Node, st *stepInfo, fails *[]string) 
 	if err := validation.VerifCheckCoinbaseAmount(tmpl, cp); err != nil {
 		*fails = append(*fails, fmt.Sprintf("class=proposer-disagrees: checkCoinbaseAmount rejects the node's own template at height %d", st.height))
 	}
+}
+
+// recordProbe (stream D, model tie): the output list of the node's own createCoinbaseTx against the
+// model's create_coinbase.  The iteration order of the reward map is read off the template: the
+// expected table's entries in the order their programs first appear among outputs 1.., the rest after.
+func (cb *caseBuilder) recordProbe(tmpl *types.Block, st *stepInfo) {
+	outs := tmpl.Transactions[0].Outputs
+	if len(outs) == 0 {
+		return
+	}
+	script := hex.EncodeToString(outs[0].ControlProgram)
+	var obs, iter []string
+	used := map[string]bool{}
+	for i, o := range outs {
+		p := hex.EncodeToString(o.ControlProgram)
+		obs = append(obs, fmt.Sprintf("(%d, %d)", cb.plab.get(p), o.Amount))
+		if v, ok := st.due[p]; ok && i > 0 && !used[p] {
+			used[p] = true
+			iter = append(iter, fmt.Sprintf("(%d, %d)", cb.plab.get(p), v))
+		}
+	}
+	for _, p := range sortedKeys(st.due) {
+		if !used[p] {
+			iter = append(iter, fmt.Sprintf("(%d, %d)", cb.plab.get(p), st.due[p]))
+		}
+	}
+	cb.probeM = append(cb.probeM, fmt.Sprintf("(%d, %d, %d, %s)", cb.E, st.height, cb.plab.get(script), CoqList(iter)))
+	cb.probeO = append(cb.probeO, CoqList(obs))
 }
 
 // child batch <file> <scratch dir>
@@ -1936,12 +2000,17 @@ func streamC(c *Ctx) error {
 		observed := fmt.Sprintf("RC %s %s %s true", CoqList(classes), CoqList(tables), total)
 		id := c.Cases.Add(model, observed)
 		c.Stats.Count("coq_cases_chain")
-		desc := map[string]interface{}{"stream": "chain", "seed": cs.Seed, "E": r.E, "case": cs.ID, "run_seed": c.Seed, "kinds": r.plan.Kinds[:nsteps], "classes": strings.Join(classes, "")}
+		desc := map[string]interface{}{"stream": "chain", "seed": cs.Seed, "E": r.E, "case": cs.ID, "run_seed": c.Seed, "tier": c.Tier, "kinds": r.plan.Kinds[:nsteps], "classes": strings.Join(classes, "")}
 		if !crashed {
 			desc["unspent"] = r.result.Desc["unspent"]
 			desc["paid"] = r.result.Desc["paid"]
 		}
 		c.Stats.CaseIndex[fmt.Sprint(id)] = desc
+		if !crashed && len(r.result.ProbeM) > 0 {
+			pid := c.Cases.Add("run_creates "+CoqList(r.result.ProbeM), "RO "+CoqList(r.result.ProbeO))
+			c.Stats.Count("coq_cases_proposer")
+			c.Stats.CaseIndex[fmt.Sprint(pid)] = map[string]interface{}{"stream": "proposer", "seed": cs.Seed, "E": r.E, "case": cs.ID, "run_seed": c.Seed, "tier": c.Tier}
+		}
 		c.Stats.Case(fmt.Sprint("chain", cs.Seed, r.E), crashed || r.result.Nontrivial)
 		for _, f := range fails {
 			cls := strings.SplitN(f, ":", 2)[0]
